@@ -20,15 +20,15 @@ import lib
 PROP = 'C01'
 IMPORTS = 'From PV Require Import Michelson.Instr Michelson.Typing Michelson.RefSem Michelson.PyStack Michelson.PySem.'
 FUEL = 700
-CASE_TY = 'instr * list (ty * data)'
+CASE_TY = 'env * (instr * list (ty * data))'
 PRELUDE = f'''
 Definition erase_obs (o : obs) : outcome :=
   match o with ODone s => Done (map erase s) | OFailed v => Failed (erase v) | OError => RtError | OOutOfFuel => OutOfFuel end.
 Definition ref_run (c : {CASE_TY}) : outcome :=
-  ref_eval {FUEL} (fst c) (map (fun p => value_of_data (snd p)) (snd c)).
-Definition py_run' (c : {CASE_TY}) : obs := py_run {FUEL} (fst c) (snd c).
+  ref_eval (fst c) {FUEL} (fst (snd c)) (map (fun p => value_of_data (snd p)) (snd (snd c))).
+Definition py_run' (c : {CASE_TY}) : obs := py_run (fst c) {FUEL} (fst (snd c)) (snd (snd c)).
 Definition tc_ok (c : {CASE_TY}) : bool :=
-  match typecheck (fst c) (map fst (snd c)) with Some _ => true | None => false end.
+  env_okb (fst c) && match typecheck (fst (snd c)) (map fst (snd (snd c))) with Some _ => true | None => false end.
 (* what the model is compared on: the full objects (stack programs) or their erasure (contracts through run_code) *)
 Inductive pyobs := Full (o : obs) | Erased (o : outcome).
 Definition outcome_or_obs_eqb (a b : pyobs) : bool :=
@@ -39,7 +39,7 @@ Definition outcome_or_obs_eqb (a b : pyobs) : bool :=
   end.
 Definition py_obs (c : {CASE_TY}) : pyobs := Full (py_run' c).
 Definition static_types (c : {CASE_TY}) : option (list ty) :=
-  match typecheck (fst c) (map fst (snd c)) with Some (Typed s) => Some s | _ => None end.
+  match typecheck (fst (snd c)) (map fst (snd (snd c))) with Some (Typed s) => Some s | _ => None end.
 '''
 
 
@@ -53,7 +53,7 @@ def case_from_json(doc: dict) -> dict:
             return tuple(conv(y) for y in x)
         return x
     return {'inputs': [tuple(conv(p)) for p in doc['inputs']], 'code': conv(doc['code']), 'result': None,
-            'retyping_map': False, 'known': doc.get('known'), 'corpus': doc.get('name')}
+            'retyping_map': False, 'known': doc.get('known'), 'corpus': doc.get('name'), 'env': doc.get('env')}
 
 
 def case_to_json(case: dict) -> dict:
@@ -63,7 +63,7 @@ def case_to_json(case: dict) -> dict:
         if isinstance(x, tuple):
             return [conv(y) for y in x]
         return x
-    return {'inputs': [conv(p) for p in case['inputs']], 'code': conv(case['code']), 'known': case.get('known')}
+    return {'inputs': [conv(p) for p in case['inputs']], 'code': conv(case['code']), 'known': case.get('known'), 'env': case.get('env')}
 
 
 class Timeout(Exception):
@@ -134,7 +134,7 @@ def record(ctx: lib.Ctx, case, obs):
 
 def replay_doc(ctx, case, obs, extra=None):
     doc = {'program': G.case_text(case), 'inputs_top_first': [[G.ty_mich(t), G.data_mich(d)] for t, d in case['inputs']],
-           'code': G.code_mich(case['code']), 'stream': case['stream'], 'repro': G.repro(case),
+           'code': G.code_mich(case['code']), 'stream': case['stream'], 'repro': G.repro(case), 'environment': case.get('env') or G.DEFAULT_ENV,
            'implementation': {k: (v if k != 'stack' else [{'value': x[3], 'type': x[2]} for x in v]) for k, v in obs.items() if k != 'value'},
            'case_json': case_to_json(case)}
     if extra:
